@@ -121,22 +121,3 @@ fn c15_eq_across_spellings() {
     kani::cover!(r == 255 && g == 0);
 }
 
-//@ ob: id=C15/K/hwb_hue_periodic kind=K-bounded fns=Color::from_hwb bound="concrete hues -300, -60, 60, 420, 780 with whiteness 20%, blackness 30%"
-//@ desc: hwb() hues are taken modulo 360deg (negative hues included): the colour for hue h equals the colour for h normalised into [0,360), and every channel is in range
-#[kani::proof]
-#[kani::unwind(8)]
-#[kani::stub(crate::value::number::epsilon, epsilon_const)]
-#[kani::stub(crate::value::number::inverse_epsilon, inverse_epsilon_const)]
-fn c15_hwb_hue_periodic() {
-    let hues = [-300.0, -60.0, 60.0, 420.0, 780.0];
-    let norm = [60.0, 300.0, 60.0, 60.0, 60.0];
-    let mut i = 0;
-    while i < 5 {
-        let c = Color::from_hwb(Number(hues[i]), Number(20.0), Number(30.0), Number(1.0));
-        let d = Color::from_hwb(Number(norm[i]), Number(20.0), Number(30.0), Number(1.0));
-        check_color_invariant(&c);
-        assert!(c.red().0 == d.red().0 && c.green().0 == d.green().0 && c.blue().0 == d.blue().0, "C15/K/hwb_hue_periodic: hue is not taken modulo 360");
-        i += 1;
-    }
-    kani::cover!(true);
-}
